@@ -408,6 +408,16 @@ def run(ck):
     repo = ck.repo
     for k, v in RULES.items():
         ck.rule(k, v)
+    from .sem import attribute_held_in_local, drop_caches
+
+    try:
+        top_ = repo.cls(MOD, "DecisionTreeLogisticRegression")
+        for mn_ in ("fit", "_fit_parallel"):
+            m_ = top_.methods.get(mn_)
+            if m_ is not None and attribute_held_in_local(m_.node, "tree_"):
+                drop_caches(m_)
+    except Exception:
+        pass
     check_a(ck, repo)
     check_b(ck, repo)
     check_c(ck, repo)
